@@ -112,3 +112,56 @@ MANIFEST_TEXT = {
             'text': 'One deterministic script (all forms of phrases in all languages, every word of every list, non-ASCII passwords, grammar strings) is executed on both builds; per-case transcript digests must be identical and equal the model where it is authoritative.',
             'note': _TB + 'Signedness is varied by compiler flag on x86-64; other ABI differences of ARM/PowerPC are not reproduced.'},
 }
+
+PROPS['C01'] = {
+    'level': 'exploration',
+    'runs': [{'name': 'asan', 'flavour': 'asan', 'driver': 'drv_c01'},
+             {'name': 'asan-dbg', 'flavour': 'asan-dbg', 'driver': 'drv_c01', 'env': {'PV_SCALE': '10'}, 'shards': 4}],
+    'require': {'auto.ok': 50000, 'auto.mult_lang': 100, 'ambiguous.constructed': 500, 'roundtrip.how.created': 5000, 'roundtrip.how.crypted': 5000, 'axes.cases': 3000},
+}
+MANIFEST_TEXT['C01'] = {'technique': 'runtime monitoring: encode/decode round trips observed through every seed observer vs reference model (ASan/UBSan, NDEBUG and assertion-enabled builds)',
+    'text': 'Seeds (boundary-biased and random; created, loaded or encrypted) are encoded in every language for boundary and random coins under all 8 enabled-feature masks, compared with the model phrase, and decoded by both decoders; the result is compared through store bytes, birthday, all feature masks, encrypted flag and the full PBKDF2 argument list. Auto-detection must return the same seed and language or MULT_LANG exactly when the model matcher finds a second recognising language; ambiguous phrases are constructed for every overlapping language pair. Every coin, birthday and feature value is visited at least once.',
+    'note': _TB + 'Sampling over 2^150 secrets; no claim beyond the executions produced.'}
+
+PROPS['C02'] = {
+    'level': 'exploration',
+    'exhaustive_possible': True,
+    'runs': [{'name': 'plain', 'flavour': 'plain', 'driver': 'drv_c02', 'timeout': 1800},
+             {'name': 'asan', 'flavour': 'asan', 'driver': 'drv_c02', 'env': {'PV_SCALE': '5'}, 'shards': 6}],
+    'require': {'arith.correct_validates': 30720, 'arith.wrong_rejected': 400000, 'subst.detected': 300000, 'swap.detected': 2000, 'unique.exactly_one': 50, 'load.wrong_check_rejected': 50000},
+}
+MANIFEST_TEXT['C02'] = {'technique': 'runtime monitoring: exhaustive field-element x position sweep and full substitution/swap neighbourhoods through the decoders vs model check value',
+    'text': 'The arithmetic core is driven through polyseed_decode_explicit for every field element at every data position (all 2047 wrong check words per case in thorough, 16 in quick); for random valid phrases of every language all 16x2047 substitutions and all 120 swaps must give exactly ERR_CHECKSUM; for random data words exactly one of the 2048 check words validates and equals the model value; stored seeds with each wrong check value must not load.',
+    'note': _TB + 'The exhaustive part covers the single-coefficient vectors; general vectors are sampled (linearity of the code is not assumed by the check).'}
+
+PROPS['C05'] = {
+    'level': 'exploration',
+    'exhaustive_possible': True,
+    'runs': [{'name': 'plain', 'flavour': 'plain', 'driver': 'drv_c05', 'timeout': 1800},
+             {'name': 'asan', 'flavour': 'asan', 'driver': 'drv_c05', 'env': {'PV_SCALE': '10'}, 'shards': 6}],
+    'require': {'rows.own_coin_ok': 300, 'pairs.rejected_with_checksum': 600000, 'token_diffs.compared': 3000},
+}
+MANIFEST_TEXT['C05'] = {'technique': 'runtime monitoring: full 2047-coin rows through encode/decode_explicit (+ auto-detect sample) with token-wise phrase diff',
+    'text': 'For every language, sampled seeds and 16 coins A (boundary + random) the phrase produced by the library for A is decoded with A (must return the same seed) and with each of the 2047 other coins (must be exactly ERR_CHECKSUM); phrases for different coins must differ in the second token only. Thorough enumerates all 2048x2047 ordered pairs for two English seeds and 256 A-rows for a seed in every other language.',
+    'note': _TB + 'Seeds are sampled; per seed the coin space is enumerated completely.'}
+
+PROPS['C04'] = {
+    'level': 'exploration',
+    'runs': [{'name': 'asan', 'flavour': 'asan', 'driver': 'drv_c04'}],
+    'require': {'keygen.args_equal_model': 30000, 'keygen.key_page_made_inaccessible_on_kdf_return': 1000, 'paths.agree': 8000, 'neighbours.differ': 5000,
+                'keygen.path.created': 5000, 'keygen.path.decoded': 5000, 'keygen.keysize.0': 1000, 'keygen.keysize.4096': 1000},
+}
+MANIFEST_TEXT['C04'] = {'technique': 'runtime monitoring: PBKDF2 monitor records all seven arguments of every call; compared with the model; key buffer guarded by ASan red zones / mprotect',
+    'text': 'Every polyseed_keygen call of the workload (seeds reached by create, load, decode from every language, double crypt, stored-encrypted-then-decrypted; boundary and random coins; key sizes 0..4096) must invoke the injected KDF exactly once with the exact password, lengths, salt, 10000 iterations and the caller\'s buffer; the buffer must afterwards hold exactly what the monitor wrote, and in a sub-sample the page is made inaccessible when the monitor returns so that any later access by the library faults. An online map asserts one KDF input per abstract (seed, coin) and one abstract key per KDF input.',
+    'note': _TB + 'The KDF itself is a deterministic stand-in (real PBKDF2 is not executed); the property concerns its inputs.'}
+
+PROPS['C06'] = {
+    'level': 'exploration',
+    'exhaustive_possible': True,
+    'runs': [{'name': 'asan', 'flavour': 'asan', 'driver': 'drv_c06'}],
+    'require': {'roundtrip.ok': 50000, 'fields.16bit_rows': 2000, 'fields.8bit_rows': 30, 'load.bytes8-9.recomputed-check.OK': 1000, 'load.bytes8-9.recomputed-check.ERR_UNSUPPORTED': 1000,
+                'load.bytes8-9.recomputed-check.ERR_FORMAT': 1000, 'load.bytes30-31.ERR_CHECKSUM': 1000, 'load.random-with-framing+recomputed-check.OK': 100},
+}
+MANIFEST_TEXT['C06'] = {'technique': 'runtime monitoring: store/load on exact-size heap buffers vs model image codec; exhaustive field sweeps around valid images (ASan/UBSan) + ledger',
+    'text': 'polyseed_store output is compared with the model image for seeds from load and create; polyseed_load is judged against the model load_spec (first applicable of FORMAT, CHECKSUM, UNSUPPORTED) on exhaustive sweeps of bytes 8-9 (with stale and with recomputed check value), every header byte, byte 28, byte 29 and bytes 30-31 around sampled valid images under rotating feature masks, on multi-bit mutations and on random buffers with and without valid framing; every accepted buffer must be reproduced by store, and the allocator ledger must show no block left after a failed load.',
+    'note': _TB + '2^256 buffers are sampled; the non-secret fields are enumerated completely around each sampled image. Platform independence is observed on x86-64 only.'}
